@@ -21,6 +21,8 @@ pub struct Runtime {
     cache: Arc<Cache>,
     emitter: Arc<Emitter>,
     package: Arc<Package>,
+    // ids of processes that have been accepted by start but are not in the cache yet
+    starting: Arc<std::sync::Mutex<std::collections::HashSet<String>>>,
 }
 
 impl Runtime {
@@ -82,7 +84,9 @@ impl Runtime {
             proc_id = pid.to_string();
         }
         let proc = self.cache.proc(&proc_id, self);
-        if proc.is_some() {
+        // the id is taken from the moment a start is accepted, not only once the spawned
+        // launch has put the process into the cache
+        if proc.is_some() || !self.starting.lock().unwrap().insert(proc_id.clone()) {
             return Err(ActError::Action(format!(
                 "proc_id({proc_id}) is duplicated in running process list"
             )));
@@ -92,7 +96,10 @@ impl Runtime {
         w.set_inputs(options);
 
         let proc = Process::new(&proc_id, self);
-        proc.load(&w)?;
+        if let Err(err) = proc.load(&w) {
+            self.starting.lock().unwrap().remove(&proc_id);
+            return Err(err);
+        }
         self.launch(&proc);
 
         Ok(proc)
@@ -107,8 +114,10 @@ impl Runtime {
         let proc = proc.clone();
         #[cfg(feature = "verif")]
         crate::verif::inflight_inc("launch");
+        let starting = self.starting.clone();
         tokio::spawn(async move {
             proc.start();
+            starting.lock().unwrap().remove(proc.id());
             #[cfg(feature = "verif")]
             crate::verif::inflight_dec("launch");
         });
@@ -173,6 +182,7 @@ impl Runtime {
             env,
             cache,
             package,
+            starting: Default::default(),
         });
 
         runtime.initialize(config);
